@@ -736,6 +736,94 @@ def index_guard(prog, res):
         break
 
 
+def overwrite_and_alias_rules(prog, res):
+    """Two hazards of the setters / copy helpers of props/storage.c (functions that receive a live
+    object): O-OVERWRITE-OWNED - a whole-object overwrite (memset / struct assignment) of a live record
+    with owning pointer members is preceded on every path by the release of those members (otherwise the
+    previous allocation is never released: 'each allocation exactly once'); R-ALIAS-SAFE - nothing the
+    destination owns is released before the last read of a string / pointer parameter (the caller may
+    pass the destination's own stored string back, e.g. to change only the other fields)."""
+    from .. import congr
+    n = 0
+    for f in prog.all_funcs():
+        if not f.file.endswith("props/storage.c") or not f.blocks:
+            continue
+        nm = f.name
+        live_obj = ("_set_" in nm or nm.endswith("_copy") or "copy_" in nm) and "init" not in nm and "destroy" not in nm
+        if not live_obj:
+            continue
+        ptr_params = [p for p in f.params if p.get("pd")]
+        if not ptr_params:
+            continue
+        rec_params = {p["id"]: p for p in ptr_params if p.get("r")}
+        str_params = [p for p in ptr_params if not p.get("r") and "char" in p.get("t", "")]
+
+        def target_record(node, pos):
+            """record type of the object a memset / *p = ... overwrites, when it belongs to a parameter object"""
+            n0 = ir.strip(congr.resolve_at(prog, f, pos, node)) if isinstance(node, dict) else None
+            n1 = ir.strip(node)
+            for cand in (n1, n0):
+                if isinstance(cand, dict) and cand.get("k") == "var" and cand.get("r") and cand.get("pd") == 1:
+                    d = congr.reaching_def(f, pos, cand["id"]) if "p" not in cand else None
+                    root = None
+                    if d is not None:
+                        root, _ = ir.field_chain(ir.strip(d)["e"] if ir.strip(d).get("k") == "addr" else ir.strip(d))
+                    if "p" in cand or (isinstance(root, dict) and root.get("k") == "var" and root.get("id") in rec_params):
+                        return cand.get("r"), cand
+            return None, None
+
+        def releases(st_, var):
+            for c in ir.calls_in(st_):
+                fn = c.get("fn") or ""
+                if fn == "free" or fn.endswith("_destroy"):
+                    for a in c.get("args", []):
+                        if any(isinstance(y, dict) and y.get("k") == "var" and y.get("id") == var["id"] for y in ir.walk(a)):
+                            return True
+            return False
+        frees = []
+        for b, i, s_ in f.all_stmts():
+            for c in ir.calls_in(s_):
+                fn = c.get("fn") or ""
+                if (fn == "free" or fn.endswith("_destroy")) and c.get("args"):
+                    frees.append((b.id, i, s_, c))
+                if fn == "memset" and len(c.get("args", [])) == 3 and ir.is_const(c["args"][1], 0):
+                    rec, var = target_record(c["args"][0], (b.id, i))
+                    sz = ir.strip(c["args"][2])
+                    if rec and owning_fields(prog, rec) and isinstance(sz, dict) and sz.get("k") == "int" and sz.get("v", 0) >= (prog.record(rec) or {}).get("size", 1 << 60):
+                        n += 1
+                        ok, w = paths.all_paths_pass(f, "entry", {(b.id, i)}, lambda q, var=var: releases(q, var))
+                        inst = "%s: struct %s is not wiped while it owns memory (line %s)" % (nm, rec, s_.get("line"))
+                        if ok:
+                            res.oblige("O-OVERWRITE-OWNED", inst, True, "released on every path before the memset", f.loc(s_))
+                        else:
+                            res.fail("O-OVERWRITE-OWNED", inst, "O-OVERWRITE-OWNED|%s|%s" % (nm, rec), f.loc(s_),
+                                     "%s zeroes a live struct %s (members %s own heap memory) without releasing it first: when the object was set before, "
+                                     "the previous allocation is never released" % (nm, rec, ", ".join(owning_fields(prog, rec))))
+        # R-ALIAS-SAFE
+        for sp in str_params:
+            reads = [(b.id, i) for b, i, s_ in f.all_stmts()
+                     if any(isinstance(y, dict) and y.get("k") == "var" and y.get("id") == sp["id"] for y in ir.walk(s_))]
+            # reads through a local String built on the parameter
+            derived = set()
+            for b, i, s_ in f.all_stmts():
+                if s_.get("k") == "decl" and isinstance(s_.get("init"), dict) and \
+                        any(isinstance(y, dict) and y.get("k") == "var" and y.get("id") == sp["id"] for y in ir.walk(s_["init"])):
+                    derived.add(s_["var"]["id"])
+            reads += [(b.id, i) for b, i, s_ in f.all_stmts()
+                      if any(isinstance(y, dict) and y.get("k") == "var" and y.get("id") in derived for y in ir.walk(s_)) and s_.get("k") != "decl"]
+            for fb, fi, fs, fc in frees:
+                later = [r for r in reads if r != (fb, fi) and r in {(x[0], x[1]) for x in paths.reachable_after(f, (fb, fi), lambda q: True)}]
+                n += 1
+                inst = "%s: nothing the destination owns is released (line %s) before %s is read for the last time" % (nm, fs.get("line"), sp["n"])
+                if not later:
+                    res.oblige("R-ALIAS-SAFE", inst, True, "", f.loc(fs))
+                else:
+                    res.fail("R-ALIAS-SAFE", inst, "R-ALIAS-SAFE|%s|%s" % (nm, sp["n"]), f.loc(fs),
+                             "%s releases memory of the destination (%s) and reads its parameter %s afterwards: a caller that passes the destination's own stored string "
+                             "(to change only the other values) makes it read freed memory" % (nm, ir.render(fc), sp["n"]))
+    return n
+
+
 def run(ctx, res):
     prog = ctx.program()
     res.extra["explanation"] = EXPLANATION
@@ -757,6 +845,7 @@ def run(ctx, res):
     copy_string_rules(prog, res)
     res.guard(string_buffer, prog, res)
     res.guard(dimension_rules, prog, res)
+    res.guard(overwrite_and_alias_rules, prog, res)
     res.require_min("R-DIMS", 8)
     index_guard(prog, res)
     if o_pair_encaps(prog, res) < 1:
